@@ -74,6 +74,12 @@ def ext_call(I, fsv, args, kwargs, node):
         return operator_module_call(I, name.split('.')[1], args, node)
     if name in ('logging.getLogger',):
         return SV('ext', 'logger')
+    if name == 'datetime.timedelta':
+        # E12: timedelta(microseconds=<finite number>) is an opaque value that only gets formatted
+        if args or set(kwargs) - {'microseconds', 'seconds', 'milliseconds'}:
+            raise OutOfSubset(f"datetime.timedelta with other than keyword durations (line {getattr(node, 'lineno', '?')})")
+        USED.add('E12')
+        return SV('ext', 'timedelta')
     raise OutOfSubset(f"call of external {name} (line {getattr(node, 'lineno', '?')})")
 
 
@@ -138,5 +144,6 @@ TRUSTED = {
     'E2': "E2: struct.unpack('>e|>f|>d|<e|<f|<d', b)[0] is the IEEE-754 binary16/32/64 value of b in that byte order (uninterpreted function of format and bytes)",
     'E3': "E3: float arithmetic is exact real arithmetic",
     'E4': "E4: codecs (bytes.decode, bytes(str, encoding=)) are uninterpreted functions of their arguments",
+    'E12': "E12: time.time_ns() returns some int; datetime.timedelta(microseconds=x) and print(...) of already evaluated strings do not raise",
     'E11': "E11: functools.cached_property returns the first computed value; on immutable bytes that equals recomputation",
 }
